@@ -34,6 +34,10 @@ class Socket(base_socket.BaseSocket):
 
     def receive(self, pkt):
         """Receive packet from the client."""
+        if self.closing or self.closed:
+            # the disconnect event was already delivered, nothing that
+            # arrives after it is passed on to the application
+            raise exceptions.SocketIsClosedError()
         packet_name = packet.packet_names[pkt.packet_type] \
             if pkt.packet_type < len(packet.packet_names) else 'UNKNOWN'
         self.server.logger.info('%s: Received packet %s data %s',
